@@ -179,6 +179,7 @@ func (fr *Frame) instr(in ssa.Instruction) {
 	case *ssa.RunDefers:
 		fr.runDefers()
 	case *ssa.Send:
+		fr.countCall("chansend") // channel sends are visible to contracts as the path counter calls(chansend)
 	case *ssa.Select:
 		fr.set(x, vc.freshVal(x.Name(), x.Type(), fr.heap))
 	case *ssa.Panic:
